@@ -582,14 +582,24 @@ char *KSI_Integer_toDateString(const KSI_Integer *o, char *buf, size_t buf_len) 
 	char *ret = NULL;
 	time_t pubTm;
 	struct tm tm;
+	char tmp[64];
 
+	if (o == NULL || buf == NULL || buf_len == 0) goto cleanup;
+
+	buf[0] = '\0';
+
+	/* A value that is beyond time_t, or that the calendar has no year for, is not a date. */
 	pubTm = (time_t)o->value;
+	if (pubTm < 0 || (KSI_uint64_t)pubTm != o->value || gmtime_r(&pubTm, &tm) == NULL) goto cleanup;
 
-	gmtime_r(&pubTm, &tm);
+	if (strftime(tmp, sizeof(tmp), "%Y-%m-%d %H:%M:%S UTC", &tm) == 0) goto cleanup;
 
-	strftime(buf, buf_len, "%Y-%m-%d %H:%M:%S UTC", &tm);
+	/* If the buffer is too short, the remainder is discarded. */
+	KSI_snprintf(buf, buf_len, "%s", tmp);
 
 	ret = buf;
+
+cleanup:
 
 	return ret;
 }
